@@ -456,9 +456,51 @@ class TypedGen:
         return TExpr(f"{s.src}.Where(lambda {x}: {b.src})", f"{s.norm}.Where(lambda {x}: {b.norm})", s.ty,
                      s.log + b.log, s.md + b.md, s.refusal or b.refusal)
 
+    def called(self, scope, d, make):
+        """(lambda p…: BODY)(ARG…): an immediately called lambda whose parameter is bound to a typed object; the body
+        (built by `make(scope)`) must be followed with the argument's type: defaults, callbacks, return type."""
+        rng = self.rng
+        objs = [(n, t) for n, t in self.visible(scope) if t in self.lib.classes]
+        if not objs:
+            return None
+        n, t = rng.choice(objs)
+        arg = TExpr(n, n, t, [], [])
+        if rng.random() < 0.4 and d > 1:
+            try:
+                arg = self.obj(rng.choice(["Jet", "Trk"]), scope, d - 2)
+            except RuntimeError:
+                pass
+        if arg.ty not in self.lib.classes:
+            return None
+        p = n if rng.random() < 0.25 else self.fresh([x for x, _ in scope])
+        sc = scope + [(p, arg.ty)]
+        extra = None
+        if rng.random() < 0.3:
+            q2 = self.rng.choice([x for x in ["u", "w", "k2", "z"] if x != p])
+            extra = (q2, self.lit("int"))
+            sc = sc + [(q2, "int")]
+        body = make(sc)
+        shape = rng.randrange(3)
+        params = p + (f", {extra[0]}" if extra else "")
+        if shape == 0 or (shape == 2 and not extra):
+            args_src = arg.src + (f", {extra[1].src}" if extra else "")
+            args_norm = arg.norm + (f", {extra[1].norm}" if extra else "")
+        elif shape == 1:
+            args_src = f"{p}={arg.src}" + (f", {extra[0]}={extra[1].src}" if extra else "")
+            args_norm = f"{p}={arg.norm}" + (f", {extra[0]}={extra[1].norm}" if extra else "")
+        else:
+            args_src = f"{arg.src}, {extra[0]}={extra[1].src}"
+            args_norm = f"{arg.norm}, {extra[0]}={extra[1].norm}"
+        return TExpr(f"(lambda {params}: {body.src})({args_src})", f"(lambda {params}: {body.norm})({args_norm})", body.ty,
+                     arg.log + body.log, arg.md + body.md, arg.refusal or body.refusal)
+
     def scalar(self, scope, d, want="float") -> TExpr:
         rng = self.rng
         lib = self.lib
+        if d > 0 and rng.random() < 0.08:
+            c = self.called(scope, d, lambda sc: self.scalar(sc, d - 1, want))
+            if c is not None:
+                return c
         objs = [(n, t) for n, t in self.visible(scope) if t in lib.classes]
         r = rng.random()
         if not objs or d <= 0 and r < 0.2:
@@ -510,6 +552,10 @@ class TypedGen:
 
     def boolean(self, scope, d) -> TExpr:
         rng = self.rng
+        if d > 0 and rng.random() < 0.08:
+            c = self.called(scope, d, lambda sc: self.boolean(sc, d - 1))
+            if c is not None:
+                return c
         r = rng.random()
         if r < 0.55 or d <= 0:
             a, b = self.scalar(scope, d - 1, rng.choice(["float", "int"])), self.scalar(scope, d - 1, "float")
